@@ -2,7 +2,7 @@
    order deterministic.  Property theorems only: each is closed by [exact <lemma>] and followed by
    [Print Assumptions].  Model: Model/C09.v   Lemmas: Proofs/C09_Log.v, Proofs/C09.v *)
 From Coq Require Import List ZArith Bool Sorted.
-From GQ Require Import Lib.Key Lib.SMap Generated.C09Params Model.C09 Proofs.C09_Log Proofs.C09.
+From GQ Require Import Lib.Key Lib.SMap Generated.C09Params Model.C09 Proofs.C09_Log Proofs.C09_Repr Proofs.C09.
 Import ListNotations.
 Local Open Scope Z_scope.
 
@@ -44,6 +44,18 @@ Print Assumptions log_big_exact_at_powers_of_two.
 Theorem bigbits_bits_roundtrip : forall x, bigbits_to_bits (bits_to_bigbits x) = Z.log2 x.
 Proof. exact (fun x => bigbits_roundtrip x log_consts_hold). Qed.
 Print Assumptions bigbits_bits_roundtrip.
+
+(* the line-by-line transcription of mathutil.BinaryLog (numerator + fracBits, partial trailing-zero stripping in
+   normalize(), early exit on eq1()) computes exactly the value-semantics model used by all theorems, for every n > 0
+   and every number of mantissa bits for which no squaring step can round to exactly 2.0 (true for 64: vm_compute) *)
+Theorem binary_log_transcription_agrees : forall mb, 1 <= mb -> no_sqrt2_hit mb = true ->
+  forall n, 0 < n -> binary_log_f n mb = binary_log n mb.
+Proof. exact binary_log_f_eq. Qed.
+Print Assumptions binary_log_transcription_agrees.
+
+Theorem log_big_transcription_agrees : no_sqrt2_hit mant_bits = true /\ forall n, 0 < n -> log_big_f n = log_big n.
+Proof. exact (conj no_sqrt2_hit_64 log_big_f_eq). Qed.
+Print Assumptions log_big_transcription_agrees.
 
 (** * entropy of a seal *)
 (* hash <= 2^256 / difficulty and difficulty >= 2 (in particular >= MinimumDifficulty, see min_difficulty_at_least_2)
